@@ -20,7 +20,9 @@ ASSUMPTIONS = [
     "load_dat_file: order is (1,0,2) [default] or (0,1,2); other transposes are only checked against numpy, not modelled",
     "event-wise functions for batch_call / LazyCall in the correspondence are the 4 functions testF 0..3; the theorems quantify over every f commuting with row windows",
     "np.savetxt/np.loadtxt/np.save/np.load reproduce float64 values exactly (checked on integer-valued data)",
-    "LazyCall with HeavyCall/tf.data caching and LazyFile are exercised by the search only (tf.data is a parameter)",
+    "LazyCall batches are consumed by iteration (for ... in L, as batch_call does); list(L) additionally calls LazyCall.__len__ = data_shape(eval of x), which raises for an x without arrays (not part of the model)",
+    "LazyCall: the plain and the nested (x is a LazyCall) branches of __iter__ are modelled (fixed code: _split_extra); HeavyCall/tf.data caching and LazyFile are exercised by the search only (tf.data is a parameter)",
+    "the theorems named without suffix F describe the generator before fix 15c726c (kept: they state exactly what the MAX_ITER branch lost); the suffix-F theorems describe the code now in /repo; the harness observes the variant and compares with the matching model",
 ]
 
 KEYS = ["a", "b", "c", "p", "w", "m", "x1", "x"]
@@ -440,6 +442,24 @@ def correspond(ctx, res):
         lazy_case(D, {"x": np.arange(float(n))}, {}, 3, 1, LV, add)
         lazy_case(D, {"x": np.arange(float(n))}, {"weight": np.arange(n), "o": {}}, 3, 1, LV, add)
 
+    # --- nested LazyCall(g, LazyCall(f, x)) (second branch of __iter__; modelled for the fixed code) -----------
+    if LV == 1:
+        for _ in range(40 * scale):
+            n = rnd.choice(SIZES_Q)
+            x = gen_tree(rnd, n, depth=rnd.choice([1, 2]), p_empty=0.15)
+            b = pick_b(rnd, n)
+            fid, gid = rnd.choice([1, 3, 1, 3, 2]), rnd.choice([0, 1, 3, 3, 2])
+            es = []
+            for _e in range(2):
+                extra = {}
+                if rnd.random() < 0.6:
+                    for k in rnd.sample(["weight", "y", "c", "e"], rnd.randint(1, 2)):
+                        extra[k] = gen_tree(rnd, n, depth=rnd.choice([0, 0, 1]), p_empty=0.3, top=False)
+                es.append(extra)
+            lazy_nest_case(D, x, es[0], es[1], gid, fid, b, add)
+        lazy_nest_case(D, {"x": np.arange(1001.0)}, {}, {}, 3, 3, 1, add)
+        lazy_nest_case(D, {"x": np.arange(1001.0), "o": [()]}, {"weight": np.arange(1001), "e": {}}, {"e": []}, 1, 3, 1, add)
+
     # --- load_dat_file / savetxt layouts through real files ------------------------------------------
     tmp = tempfile.mkdtemp(prefix="c18_")
     try:
@@ -491,12 +511,32 @@ def lazy_case(D, x, extra, fid, b, LV, add):
     def it():
         L = mk()
         L.as_dataset(b)
-        return D.data_to_numpy(D.data_merge(*list(L)))
+        return D.data_to_numpy(D.data_merge(*[p for p in L]))
 
     got, _ = show_opt(it, True)
     add("lazyiter %d %d %d %s %s" % (LV, fid, b, encs(x), encs(extra)), got, "lazyiter")
     got, _ = show_opt(lambda: D.data_to_numpy(mk().eval()), True)
     add("lazyeval %d %s %s" % (fid, encs(x), encs(extra)), got, "lazyeval")
+
+
+def lazy_nest_case(D, x, e1, e2, gid, fid, b, add):
+    def mk():
+        L1 = D.LazyCall(test_f(fid), x)
+        for k, v in e1.items():
+            L1[k] = v
+        L2 = D.LazyCall(test_f(gid), L1)
+        for k, v in e2.items():
+            L2[k] = v
+        return L2
+
+    def it():
+        L = mk()
+        L.as_dataset(b)
+        return D.data_to_numpy(D.data_merge(*[p for p in L]))
+
+    a, _ = show_opt(it, True)
+    e, _ = show_opt(lambda: D.data_to_numpy(mk().eval()), True)
+    add("lazynest %d %d %d %s %s %s" % (gid, fid, b, encs(x), encs(e1), encs(e2)), a + " | " + e, "lazynest")
 
 
 def write_rows(np, path, rows):
@@ -900,11 +940,11 @@ def search_lazy(ctx, res, rnd, D, stats, hard, mult):
             ev = D.data_to_numpy(mk().eval())
             L = mk()
             L.as_dataset(b)
-            it = D.data_to_numpy(D.data_merge(*list(L)))
+            it = D.data_to_numpy(D.data_merge(*[p for p in L]))
             bc = D.data_to_numpy(D.batch_call(lambda d: d, mk(), b))
             L2 = D.LazyCall(lambda d: {"z": tree_map(d, lambda q: q + 1)}, mk())   # LazyCall of a LazyCall
             L2.as_dataset(b)
-            it2 = D.data_to_numpy(D.data_merge(*list(L2)))
+            it2 = D.data_to_numpy(D.data_merge(*[p for p in L2]))
         except Exception as e:  # noqa: BLE001
             res.fail("LazyCall:raises", "LazyCall iteration/eval raises %s: %s" % (type(e).__name__, str(e)[:100]), payload)
             continue
@@ -928,7 +968,7 @@ def search_lazy(ctx, res, rnd, D, stats, hard, mult):
         L.prefetch = 0
         try:
             L.as_dataset(b)
-            it = D.data_to_numpy(D.data_merge(*list(L)))
+            it = D.data_to_numpy(D.data_merge(*[p for p in L]))
             ev = D.data_to_numpy(L.eval())
         except Exception as e:  # noqa: BLE001
             res.fail("LazyCall:HeavyCall:raises", "HeavyCall LazyCall raises %s: %s" % (type(e).__name__, str(e)[:120]), {"op": "lazy_heavy", "n": n, "b": b})
@@ -990,7 +1030,7 @@ def replay(ctx, payload):
         for k, v in extra.items():
             L[k] = v
         L.as_dataset(r["b"])
-        it = D.data_to_numpy(D.data_merge(*list(L)))
+        it = D.data_to_numpy(D.data_merge(*[p for p in L]))
         ev = D.data_to_numpy(L.eval())
         ok = tree_equal(it, ev)
         print("lazy == eager:", ok)
@@ -1012,7 +1052,7 @@ def replay(ctx, payload):
 
 
 MANIFEST = {
-    "text": "Lean theorems over ALL nested dict/list/tuple data trees (structural induction, arbitrary depth and row type), all batch sizes b>0 and all event counts: the batches of data_split are exactly the row windows [j*b,(j+1)*b) of every leaf and their number is the minimum over the tree of ceil(n/b) (leaf), MAX_ITER (empty dict/list), 0 (empty tuple) (split_eq, split_count, split_sizes); data_merge of the batches is the data cut after (number of batches)*b rows (merge_split_general), hence equals the data when no empty container limits the iteration or ceil(n/b) <= MAX_ITER (merge_split) and provably loses rows otherwise (merge_split_truncated, split_empty_tuple); batch_call f = f(whole sample) for every f commuting with row windows, and the scalar broadcast rule (batch_call_eq, batch_call_scalar); data_mask keeps exactly the selected rows of every leaf in order (mask_leaf); load_dat_file(savetxt(p)) = p for every particle count / event count / number of files holding disjoint particle groups (load_multi_file, load_save_roundtrip); merged LazyCall batches = eval() (lazy_eq_eager); data_index hit/fallback/path rules. For the generator after fix_data_generator_empty.diff the round-trip and batch_call theorems are proved with no guard on empty containers (merge_splitF, batch_call_eqF). The model is tied to tf_pwa.data by exact comparison on random trees, real files and LazyCall objects on every run; numpy oracles test the statements directly on the implementation.",
-    "note": "Model = TfPwaV.Data (hand-written; generators = lists of yielded values with the MAX_ITER branch and zip truncation mirrored; fixed variant 'finite list | repeat' selected by observing the tree). Validated, not proved: numpy/tf slicing, concat and boolean_mask act row-wise and keep inner shape/dtype; np.savetxt/loadtxt/save/load exactness; save_data/load_data pickling; tf.data (HeavyCall) batching; nested LazyCall; ConfigLoader dat_order plumbing (real files, permutations of a 3-body decay, text and npy); load_dat_file order=(0,1,2) (correspondence only). Known findings on the unchanged tree: an empty dict/list stops the iteration after 1000 batches, an empty tuple makes data_split yield nothing, LazyCall with empty extra stops after 1000 batches.",
+    "text": "Lean theorems over ALL nested dict/list/tuple data trees (structural induction, arbitrary depth and row type), all batch sizes b>0 and all event counts: the batches of data_split are exactly the row windows [j*b,(j+1)*b) of every leaf and their number is the minimum over the tree of ceil(n/b) (leaf), MAX_ITER (empty dict/list), 0 (empty tuple) (split_eq, split_count, split_sizes); data_merge of the batches is the data cut after (number of batches)*b rows (merge_split_general), hence equals the data when no empty container limits the iteration or ceil(n/b) <= MAX_ITER (merge_split) and provably loses rows otherwise (merge_split_truncated, split_empty_tuple); batch_call f = f(whole sample) for every f commuting with row windows, and the scalar broadcast rule (batch_call_eq, batch_call_scalar); data_mask keeps exactly the selected rows of every leaf in order (mask_leaf); load_dat_file(savetxt(p)) = p for every particle count / event count / number of files holding disjoint particle groups (load_multi_file, load_save_roundtrip); merged LazyCall batches = eval() (lazy_eq_eager); data_index hit/fallback/path rules. For the code after the fix (15c726c, now in /repo) every statement is proved with NO guard on empty containers, empty extra or the number of batches: splitF_batches, splitF_get, merge_splitF, batch_call_eqF, batch_call_scalarF, lazyIterF_batches, lazy_eq_eagerF (plain LazyCall, _split_extra) and lazy_nested_eq_eagerF (LazyCall of a LazyCall). The model is tied to tf_pwa.data by exact comparison on random trees, real files and LazyCall objects on every run; numpy oracles test the statements directly on the implementation.",
+    "note": "Model = TfPwaV.Data (hand-written; generators = lists of yielded values with the MAX_ITER branch and zip truncation mirrored; fixed variant 'finite list | repeat' selected by observing the tree). Validated, not proved: numpy/tf slicing, concat and boolean_mask act row-wise and keep inner shape/dtype; np.savetxt/loadtxt/save/load exactness; save_data/load_data pickling; tf.data (HeavyCall) batching; LazyFile; ConfigLoader dat_order plumbing (real files, permutations of a 3-body decay, text and npy); load_dat_file order=(0,1,2) (correspondence only). Known findings on the unchanged tree: an empty dict/list stops the iteration after 1000 batches, an empty tuple makes data_split yield nothing, LazyCall with empty extra stops after 1000 batches.",
     "technique": "Lean 4 proof by structural induction over nested data trees (unbounded sizes) + exact differential correspondence with tf_pwa.data on random trees/real files + numpy-oracle search on the implementation",
 }
